@@ -322,11 +322,73 @@ fn cases(ctx: &Ctx) -> Vec<Case> {
     v
 }
 
+/// Far targets: displacements around every power of two up to the flash size and their negatives
+/// (a field computed in a narrower integer type wraps exactly there), written pc-relative and
+/// through labels placed with `.org`. All of them are unreachable and must be errors.
+fn far_cases(ctx: &Ctx) {
+    let forms = isa::forms();
+    for (fi, form) in forms.iter().enumerate() {
+        let Some(Opk::Rel { bits, .. }) = form.ops.last().copied() else { continue };
+        let flags: Vec<i64> = if form.ops.len() == 2 { vec![0, 7] } else { vec![0] };
+        let mut ds: Vec<i64> = vec![];
+        for k in [7u32, 8, 11, 12, 13, 15, 16, 17, 20, 21, 22, 23, 24, 31, 32, 33, 40] {
+            for delta in [-65i64, -64, -2, -1, 0, 1, 2, 63, 64, 2047, 2048, -2048, -2049] {
+                ds.push((1i64 << k) + delta);
+                ds.push(-(1i64 << k) + delta);
+            }
+        }
+        ds.sort();
+        ds.dedup();
+        for flag in &flags {
+            for d in &ds {
+                let fits = Opk::Rel { bits, f: 'k' }.legal(*d);
+                // (a) pc-relative spelling, instruction at a small address
+                let t = *d + 1;
+                let target = if t >= 0 { format!("pc+{}", t) } else { format!("pc-{}", -t) };
+                let line = if form.ops.len() == 2 { format!("\t{} {}, {}", form.mn, flag, target) } else { format!("\t{} {}", form.mn, target) };
+                let src = format!("; C03 far case\n\tnop\n{}\n", line);
+                let out = fw::build_str(&src);
+                ctx.eval(1);
+                ctx.distinct(fw::mix64((fi as u64) << 8 | *flag as u64, *d as u64));
+                let bad = match &out {
+                    Outcome::Ok(_) => !fits,
+                    Outcome::Err(_) => fits,
+                    Outcome::Panic(_) => true,
+                };
+                if bad {
+                    ctx.violation(
+                        format!("rel/{}/{}/far", form.name, if fits { "in-range-rejected" } else { "out-of-range-accepted" }),
+                        format!("{} to `{}` (displacement {}): {:?}", form.mn, target, d, out.brief()),
+                        json!({"source": src, "form": form.name, "flag": flag, "d": d, "fits": fits, "expect_code": "", "observed": out.brief()}),
+                    );
+                }
+                // (b) a label that far away (forward only, within the default flash), placed with .org
+                if *d > 0 && *d < 4_000_000 && !fits && (*flag == 0) {
+                    let at = 5u32;
+                    let target_addr = at as i64 + 1 + *d;
+                    let line = if form.ops.len() == 2 { format!("\t{} {}, far_label", form.mn, flag) } else { format!("\t{} far_label", form.mn) };
+                    let src = format!("; C03 far label case\n.org {}\n{}\n.org {}\nfar_label:\n\tnop\n", at, line, target_addr);
+                    let out = fw::build_str(&src);
+                    ctx.eval(1);
+                    if !out.is_err() {
+                        ctx.violation(
+                            format!("rel/{}/out-of-range-accepted/far-label", form.name),
+                            format!("{} to a label {} words ahead was not rejected: {}", form.mn, d, out.kind()),
+                            json!({"source": src, "form": form.name, "flag": flag, "d": d, "fits": false, "expect_code": "", "observed": out.brief()}),
+                        );
+                    }
+                }
+            }
+        }
+    }
+}
+
 pub fn run(ctx: &Ctx) -> i32 {
     if let Err(e) = isa::selfcheck() {
         println!("HARNESS-FAILURE property=C03 {}", e);
         return 2;
     }
+    far_cases(ctx);
     let cs = cases(ctx);
     let mut forms_seen = std::collections::BTreeSet::new();
     for c in &cs {
@@ -338,7 +400,7 @@ pub fn run(ctx: &Ctx) -> i32 {
     ctx.exhaustive.store(true, std::sync::atomic::Ordering::Relaxed);
     fw::finish(
         ctx,
-        "for each of the 18 br<cond> mnemonics, brbs/brbc x 8 flags, rjmp and rcall: every displacement in the stated window (branches -80..80; rjmp/rcall around both limits and zero, thorough -2100..2100) x filler mixes (nop-only and random mixes of one/two-word instructions, .dw/.db/.dq data, .org gaps) x target spellings (label, label+k, label-k, pc±k) x start addresses; distinct_nontrivial = distinct (mnemonic, flag, displacement) triples",
+        "for each of the 18 br<cond> mnemonics, brbs/brbc x 8 flags, rjmp and rcall: every displacement in the stated window (branches -80..80; rjmp/rcall around both limits and zero, thorough -2100..2100) x filler mixes (nop-only and random mixes of one/two-word instructions, .dw/.db/.dq data, .org gaps) x target spellings (label, label+k, label-k, pc±k) x start addresses; plus far targets: displacements within ±65/±2049 of ±2^k for k up to 40, pc-relative and through labels placed with .org (all must be rejected); distinct_nontrivial = distinct (mnemonic, flag, displacement) triples",
         &["distances are realised with reference encodings of the filler items (refmodel/isa.rs); decode by the independent decoder"],
     )
 }
